@@ -13,3 +13,15 @@ open SophiaProofs.C01
 #print axioms constant_sound_gm
 #print axioms cached_scan_is_filter
 #print axioms range_is_prefix_filter
+#print axioms scan_eq_filter
+#print axioms contains_is_membership
+#print axioms matching_respects_term_eq
+#print axioms insert_all_refines
+#print axioms insert_all_full_prefix
+#print axioms remove_all_refines
+#print axioms remove_matching_refines
+#print axioms retain_matching_refines
+#print axioms run_refines_spec
+#print axioms run_contains_spec
+#print axioms run_query_spec
+#print axioms run_refines_plain_set
